@@ -404,7 +404,16 @@ class Ctx:
                 if (ALL3 - rel_t) <= required:
                     removed |= x.false_edges
             csucc = {'result': 'ok', 'option': 'some', 'bool': 'true'}.get(ty_class(g.ret), 'any')
-            if success_reachable(cb, removed, csucc):
+            # `|x| a <= x`: the comparison IS the closure's value - true exactly when the relation holds
+            returned_ok = False
+            if csucc == 'true':
+                for x in gs:
+                    rel_t = CMP_REL[x.op]
+                    if pred(x) == 'swap':
+                        rel_t = {_FLIP[r] for r in rel_t}
+                    if getattr(x, 'returned', False) and rel_t <= required and not x.true_edges and not x.false_edges:
+                        returned_ok = True
+            if not returned_ok and success_reachable(cb, removed, csucc):
                 self.report.violation(clause, 'R6', inst, k, 'the per-item closure %s can succeed although the guard only establishes part of the required relation %s'
                                       % (fn_short(g.name), sorted(required)), '%s:%d' % (lf.file, gs[0].line))
                 return False
@@ -413,7 +422,7 @@ class Ctx:
             edges = set()
             sites = 0
             for c in body.calls():
-                if g.name in closure_args(body, c) and any(n.endswith(('::try_for_each', '::all')) for n in c.names()):
+                if g.name in closure_args(body, c) and any(n.endswith(('::try_for_each', '::all', '::is_some_and', '::is_ok_and')) for n in c.names()):
                     sites += 1
                     from engine import gating_edges
                     edges |= gating_edges(body, c.dest[0], +1, success)[0]
